@@ -26,7 +26,7 @@ THEOREMS = ['C07_env_equal_script', 'C07_env_script_nonvacuous', 'C07_env_module
             'C07_env_module_nonvacuous', 'C07_argv0_module_refuted',
             'C07_path0_module_setup_elsewhere_refuted', 'C07_setup_once_first_unprofiled',
             'C07_setup_nonvacuous', 'C07_no_helper_thread_after_run', 'C07_timer_nonvacuous',
-            'C07_single_timer_stops', 'C07_double_creation_would_leak']
+            'C07_single_timer_stops', 'C07_dump_before_rearm_would_leak', 'C07_double_creation_would_leak']
 LEVEL = 'proof'
 
 BOOLS = ['l', 'b', 'v', 'o', 'z', 'u', 'pi', 'p', 'i']
@@ -105,6 +105,10 @@ def layout(rnd):
         n['pkg'] + '/helper.py': sib_text(k[6]),
         n['pkg'] + '/__main__.py': prog_text('helper', 6, k[7], k[0], imp='from . import helper\nfrom .helper import twice'),
         n['setup']: SETUP_TEXT,
+        # later PATH directory with EXECUTABLE files of the same names: must never be chosen, the
+        # first regular file wins whatever its permission bits (kernprof reads and execs the source)
+        'xbin/' + n['tool']: 'raise SystemExit("a later PATH entry must not be the one that runs")\n',
+        'xbin/' + n['tool2']: 'raise SystemExit("a later PATH entry must not be the one that runs")\n',
         'nobin/.keep': '',
         'nobin/' + n['tool'] + '/.keep': '',       # a DIRECTORY with the tool's name: not a file
     }
@@ -112,7 +116,7 @@ def layout(rnd):
 
 
 def path_entries(proj):
-    return ['', os.path.join(proj, 'nobin'), os.path.join(proj, 'bin'), 'pbin', '/usr/bin', '/bin']
+    return ['', os.path.join(proj, 'nobin'), os.path.join(proj, 'bin'), 'pbin', os.path.join(proj, 'xbin'), '/usr/bin', '/bin']
 
 
 def target_words(n, proj, target):
@@ -217,8 +221,8 @@ def write_project(root, files):
         with open(p, 'w') as f:
             f.write(txt)
     for rel in files:
-        if rel.startswith(('bin/', 'pbin/')):
-            os.chmod(os.path.join(root, rel), 0o755)
+        # the scripts that are looked up on PATH are plain 0644 source files; only the decoys are executable
+        os.chmod(os.path.join(root, rel), 0o755 if rel.startswith('xbin/') else 0o644)
 
 
 def sub(cmd, cwd, env, timeout=120):
@@ -466,6 +470,7 @@ def shard_header(files):
             'Definition mkw (root : list string) : world :=\n'
             '  mkworld (mkpath true root) (map (fun l => mkpath true (root ++ l)) LAYOUT)\n'
             '          [empty_path; mkpath true (root ++ ["nobin"]); mkpath true (root ++ ["bin"]); rel ["pbin"];\n'
+            '           mkpath true (root ++ ["xbin"]);\n'
             '           mkpath true ["usr"; "bin"]; mkpath true ["bin"]].\n'
             'Definition fst3 (x : bool * bool * bool) := fst (fst x).\n'
             'Definition snd3 (x : bool * bool * bool) := snd (fst x).\n'
@@ -485,18 +490,23 @@ def coq_row(r, a, n):
 # ---------------------------------------------------------------------------------
 # in-process runs (thread state when main returns)
 INPROC = [dict(w=['-l'], sleep=0), dict(w=[], sleep=0), dict(w=['-b'], sleep=0), dict(w=['-l', '-i', '1'], sleep=0),
-          dict(w=['-i', '1'], sleep=0), dict(w=['-l', '-i', '1'], sleep=1.35), dict(w=['-l', '-i', '1', '-v'], sleep=0)]
+          dict(w=['-i', '1'], sleep=0), dict(w=['-l', '-i', '1'], sleep=1.35), dict(w=['-l', '-i', '1', '-v'], sleep=0),
+          # the program ends while a periodic dump is in flight (the dump is held by the driver)
+          dict(w=['-l', '-i', '1'], sleep=0, block=True), dict(w=['-i', '1', '-v'], sleep=0, block=True)]
 
 
 def run_inproc(impl, base, tier):
     proj = os.path.realpath(os.path.join(base, 'inproc', 'proj'))
     files = {'quick_prog.py': 'import sys\nprint("QP", len(sys.argv))\n',
-             'slow_prog.py': 'import sys, time\ntime.sleep(float(sys.argv[1]))\nprint("SP")\n'}
+             'slow_prog.py': 'import sys, time\ntime.sleep(float(sys.argv[1]))\nprint("SP")\n',
+             'held_prog.py': 'import sys\nprint("HP", sys.modules["__main__"].DUMP_STARTED.wait(20))\n'}
     write_project(proj, files)
-    specs = INPROC if tier == 'thorough' else INPROC[:4] + INPROC[5:6]
+    specs = INPROC if tier == 'thorough' else INPROC[:4] + INPROC[5:6] + INPROC[7:8]
     runs = []
     for s in specs:
-        if s['sleep']:
+        if s.get('block'):
+            runs.append(dict(cwd=proj, args=s['w'] + ['held_prog.py'], block=True))
+        elif s['sleep']:
             runs.append(dict(cwd=proj, args=s['w'] + ['slow_prog.py', str(s['sleep'])]))
         else:
             runs.append(dict(cwd=proj, args=s['w'] + ['quick_prog.py']))
@@ -515,9 +525,10 @@ def inproc_rows(proj, specs, runs, outs):
         opts = '(mkopts %s %s %s false false false None None %s [])' % (
             core.coq_bool('-l' in w), core.coq_bool('-b' in w), core.coq_bool('-v' in w), core.coq_z(1 if '-i' in w else 0))
         script = r['args'][len(w)]
-        rows.append('(timer_case_ok (mkw2 %s) %s (TScript %s) %s %s %s %s %s)' % (
+        rows.append('(timer_case_ok (mkw2 %s) %s (TScript %s) %s %s %s %s %s %s)' % (
             root, opts, coq_path(script), core.coq_list([q(x) for x in r['args'][len(w) + 1:]]),
-            core.coq_z(o['created']), core.coq_z(o['stopped']), core.coq_z(o['live_nondaemon']), core.coq_z(o['fired'])))
+            core.coq_z(o['created']), core.coq_z(o['stopped']), core.coq_z(o['live_nondaemon']),
+            core.coq_z(o['fired'] - o['inflight']), core.coq_z(o['inflight'])))
     return rows
 
 
@@ -590,9 +601,12 @@ def run(tier, seed):
             fid = F_TIMER if ('-i' in s['w'] and o['created'] == 2 and o['stopped'] == 1
                               and all(h['timer'] for h in o['helpers'])) else None
             res.spec_fails.append(dict(case=dict(inproc=s, seed=seed, tier=tier), impl=o, aspect='timer',
-                                       why='timer: %d non-daemon helper thread(s) alive when kernprof.main returned '
-                                           '(RepeatedTimer created %d, stopped %d)' % (o['live_nondaemon'], o['created'], o['stopped']),
+                                       why='timer: %d non-daemon helper thread(s) alive after kernprof.main returned and the %d dump(s) '
+                                           'in flight finished (RepeatedTimer created %d, stopped %d, firings %d)'
+                                           % (o['live_nondaemon'], o['inflight'], o['created'], o['stopped'], o['fired']),
                                        finding=fid))
+        if s.get('block') and o['inflight'] < 1:
+            res.infra_errors.append('in-process run %r: no dump was in flight when the program ended (%r)' % (s, o))
         if o['exc'] or o['alive_after_cleanup']:
             res.infra_errors.append('in-process run %r: exc=%r alive_after_cleanup=%r' % (s, o['exc'], o['alive_after_cleanup']))
 
@@ -698,6 +712,7 @@ def run(tier, seed):
                                  C07_setup_once_first_unprofiled=sum(1 for r, a in analysed if r['case']['setup'] != 'none'),
                                  C07_no_helper_thread_after_run=dict(in_process_with_i=sum(1 for s in ispecs if '-i' in s['w']),
                                                                      in_process_without_i=sum(1 for s in ispecs if '-i' not in s['w']),
+                                                                     in_process_dump_in_flight_at_stop=sum(1 for o in iouts if o['inflight']),
                                                                      subprocess_with_i=sum(1 for r, a in analysed if r['case']['i']))),
         spec_fails_by_finding=by_finding,
         failing_aspects_note='spec_fails counts failing ASPECTS (argv0, path0, stderr, rc, ...), several can fail in one case',
